@@ -11,7 +11,8 @@ known finding D23) whose game's declared defaults are scalars or which has no no
 model returns a chart whose notes satisfy `Spec` and whose other parts are untouched.  Everything the
 property lists follows from `Spec` alone (so it also holds for every implementation output accepted by
 `specB`, `specB_sound`): `Spec.conservation`, `Spec.length_eq`, `ColRule.nonlast` / `ColRule.last` /
-`expected_hold` / `expected_hit` (the rule), `Spec.last_kept`, `Spec.no_overlap`.
+`expected_hold` / `expected_hit` (the rule), `Spec.last_kept`, `Spec.no_overlap`.  `specB_iff`: the executable
+check is exactly `Spec`.  `fullLnRows_eq_of_same_last`: the tie order matters only through the last note of a column.
 -/
 import Reamber.Lemmas.FullLN
 import Reamber.Generated.FullLN
@@ -447,6 +448,80 @@ theorem specB_complete (gap thr : Rat) (inp out : List Row) (h : Spec gap thr in
 /-- the executable check evaluated on the implementation's output IS the statement -/
 theorem specB_iff (gap thr : Rat) (inp out : List Row) : specB gap thr inp out = true ↔ Spec gap thr inp out :=
   ⟨specB_sound gap thr inp out, specB_complete gap thr inp out⟩
+
+/-! ### how much the order of stacked notes matters -/
+
+theorem columnsOf_perm_eq (l₁ l₂ : List Row) (h : l₁.Perm l₂) : columnsOf l₁ = columnsOf l₂ := by
+  apply List.Perm.eq_of_pairwise (le := fun (a b : Int) => a < b)
+  · intro a b _ _ h1 h2; omega
+  · exact columnsOf_sorted l₁
+  · exact columnsOf_sorted l₂
+  · rw [List.perm_ext_iff_of_nodup (columnsOf_nodup l₁) (columnsOf_nodup l₂)]
+    intro c
+    rw [mem_columnsOf, mem_columnsOf]
+    constructor
+    · rintro ⟨r, hr, hc⟩; exact ⟨r, h.mem_iff.mp hr, hc⟩
+    · rintro ⟨r, hr, hc⟩; exact ⟨r, h.mem_iff.mpr hr, hc⟩
+
+/-- two ascending arrangements of the same column that end with the same note give the same output -/
+theorem applyRule_eq_of_same_last (gap thr : Rat) (c : Int) (g₁ g₂ : List Row)
+    (hc : ∀ r ∈ g₁, r.column = c) (hp : g₁.Perm g₂) (s₁ : SortedByOffset g₁) (s₂ : SortedByOffset g₂)
+    (hl : g₁.getLast? = g₂.getLast?) : applyRule gap thr g₁ = applyRule gap thr g₂ := by
+  by_cases hne : g₁ = []
+  · subst hne
+    have : g₂ = [] := List.perm_nil.mp hp.symm
+    subst this; rfl
+  · have hne2 : g₂ ≠ [] := by
+      intro he; subst he; exact hne (List.perm_nil.mp hp)
+    have e1 := List.dropLast_concat_getLast hne
+    have e2 := List.dropLast_concat_getLast hne2
+    have hx : g₁.getLast hne = g₂.getLast hne2 := by
+      rw [List.getLast?_eq_some_getLast hne, List.getLast?_eq_some_getLast hne2] at hl
+      exact Option.some.inj hl
+    rw [← e1, ← e2, hx]
+    apply applyRule_append_congr
+    have hc2 : ∀ r ∈ g₂, r.column = c := fun r hr => hc r (hp.mem_iff.mpr hr)
+    apply sorted_keys_eq c
+    · intro r hr; exact hc r (List.dropLast_subset g₁ hr)
+    · intro r hr; exact hc2 r (List.dropLast_subset g₂ hr)
+    · exact List.Pairwise.sublist (List.dropLast_sublist g₁) s₁
+    · exact List.Pairwise.sublist (List.dropLast_sublist g₂) s₂
+    · have : (g₁.dropLast ++ [g₂.getLast hne2]).Perm (g₂.dropLast ++ [g₂.getLast hne2]) := by
+        rw [e2, ← hx, e1]; exact hp
+      exact (List.perm_append_right_iff _).mp this
+
+/-- **tie order**: whatever ascending permutation the sort returns, the produced rows depend on it only
+through which of the notes stacked at the end of each column comes last — two sorted arrangements of the
+same frame with the same last note in every column give literally the same rows. -/
+theorem fullLnRows_eq_of_same_last (gap thr : Rat) (arr₁ arr₂ : List Row) (hp : arr₁.Perm arr₂)
+    (s₁ : SortedByOffset arr₁) (s₂ : SortedByOffset arr₂)
+    (hl : ∀ c, (inColumn c arr₁).getLast? = (inColumn c arr₂).getLast?) :
+    fullLnRows gap thr arr₁ = fullLnRows gap thr arr₂ := by
+  unfold fullLnRows groups
+  rw [columnsOf_perm_eq arr₁ arr₂ hp]
+  congr 1
+  rw [List.map_map, List.map_map]
+  apply List.map_congr_left
+  intro c _
+  simp only [Function.comp, processGroup_eq_applyRule, group_eq_inColumn]
+  apply applyRule_eq_of_same_last gap thr c
+  · intro r hr; simpa [inColumn] using (List.mem_filter.mp hr).2
+  · exact hp.filter _
+  · exact List.Pairwise.filter _ s₁
+  · exact List.Pairwise.filter _ s₂
+  · exact hl c
+
+/-- non-vacuity: two orders of a stacked pair that is not at the end of its column -/
+example : ([⟨0, 0, none⟩, ⟨0, 0, some 5⟩, ⟨10, 0, none⟩] : List Row).Perm [⟨0, 0, some 5⟩, ⟨0, 0, none⟩, ⟨10, 0, none⟩] ∧
+    SortedByOffset [⟨0, 0, none⟩, ⟨0, 0, some 5⟩, ⟨10, 0, none⟩] ∧
+    SortedByOffset [⟨0, 0, some 5⟩, ⟨0, 0, none⟩, ⟨10, 0, none⟩] ∧
+    ∀ c, (inColumn c [⟨0, 0, none⟩, ⟨0, 0, some 5⟩, ⟨10, 0, none⟩]).getLast? =
+      (inColumn c [⟨0, 0, some 5⟩, ⟨0, 0, none⟩, ⟨10, 0, none⟩]).getLast? := by
+  refine ⟨List.Perm.swap _ _ _, sortedB_sound _ (by decide +kernel), sortedB_sound _ (by decide +kernel), ?_⟩
+  intro c
+  by_cases h : (0 : Int) = c
+  · subst h; decide +kernel
+  · simp [inColumn, h]
 
 /-! ### the chart-level statement -/
 
